@@ -5,7 +5,7 @@ import numpy as np
 from hypothesis import strategies as st
 
 from ..core import Clause, Discard, call, require
-from ..strategies import bank_specs, floats
+from ..strategies import threshold_configs, with_config, bank_specs, floats
 from .c05 import _thr, apply_warmup, bank_labels, build_or_discard, narrowed_specs, warmups
 
 PROPERTY = "C07"
@@ -162,12 +162,13 @@ def _cases():
         "wmode": st.sampled_from(["base", "base+1", "mult", "mult", "mult"]),
         "mult": st.one_of(floats(1.0, 4.0), floats(1.0, 1.2)),
         "warmup": warmups(),
+        "config": threshold_configs(),
     })
 
 
 def clauses(tier):
     return [
-        Clause("agree", check_agree,
+        Clause("agree", with_config(check_agree),
                "one (bank, filter with supports_hz span <= rate, width in {base, base+1, [base, 4 base]}) per case: |ifft(H) - h| <= 2 thr, dtype real iff is_real, |h| < 2 thr outside supports (mod width), |H| < 2.5 thr outside supports_hz (mod rate, mirrored if real), supports straddle 0 / start at 0. Non-trivial = temporal support >= 5 samples and width != base",
                _cases, quick=3000, thorough=160000),
     ]
